@@ -6,7 +6,10 @@ use crate::base::{
 use crate::utils::format_time_nanos_curr;
 use crate::{Error, Result};
 use std::sync::Arc;
+#[cfg(not(flea1lt_sentinel_rust_verif))]
 use std::sync::RwLock;
+#[cfg(flea1lt_sentinel_rust_verif)]
+use crate::verif::sync::RwLock;
 
 // EntryBuilder is the basic API of Sentinel.
 pub struct EntryBuilder {
